@@ -45,8 +45,17 @@ type c41Cfg struct {
 	StopAt    int       `json:"stop_at"`   // submission count at which the Stop scenario starts
 	Scenario  int       `json:"scenario"`  // 0 ample, 1 expired then ample, 2 short deadline then ample, 3 expired, expired, ample
 	Hold      int       `json:"hold"`      // further submission attempts before the gates open
-	NilCtx    bool      `json:"nil_ctx"`   // ample Stop uses context.Background() instead of a long timeout
 	Faults    c29Faults `json:"faults"`
+	// Further Options knobs that shape the pipeline.
+	Inflight      int  `json:"inflight"`       // AppendInflightBatchesPerChannel: 0 (default = 1), 2, 3, 8
+	Reorder       int  `json:"reorder"`        // permille of appender calls held until a later same-channel call returned (only with Inflight >= 2)
+	HandoffCap    int  `json:"handoff_cap"`    // PostCommitHandoffCapacity (0 = derived)
+	CoalesceMax   int  `json:"coalesce_max"`   // InboxCoalesceMaxItems (0 = default)
+	IdleRetention int  `json:"idle_retention"` // WriterIdleRetention in microseconds (0 = default 10 min)
+	PostCommit    bool `json:"post_commit"`    // PersistAfterEnqueuer configured (false selects the append-only writer loop)
+	SenderFence   bool `json:"sender_fence"`   // SenderFenceValidator configured (always accepts)
+	Observer      bool `json:"observer"`       // AppendObserver + pressure/effect/pool observers configured
+	FakeClock     bool `json:"fake_clock"`     // Options.Clock supplied by the harness
 	// PauseBefore issues PauseForRestore right before the Stop scenario (the
 	// resume then happens after a Stop call returned, or never).
 	PauseBefore bool `json:"pause_before"`
@@ -97,8 +106,33 @@ func c41GenCfg(rng *rand.Rand) c41Cfg {
 	c.GatePC = rng.IntN(3) == 0
 	c.Scenario = rng.IntN(4)
 	c.Hold = rng.IntN(40)
-	c.NilCtx = rng.IntN(2) == 0
 	c.Faults = c29Faults{FailBefore: rng.IntN(80), Latency: rng.IntN(3)}
+	c.Inflight = []int{0, 0, 2, 2, 3, 8}[rng.IntN(6)]
+	if c.Inflight >= 2 {
+		if c.Effect < 2 {
+			c.Effect = 2 + rng.IntN(3)
+		}
+		if rng.IntN(4) != 0 {
+			c.Reorder = 100 + rng.IntN(500)
+		}
+		if c.Depth < 3 {
+			c.Depth = 3 + rng.IntN(6) // several batches per channel must be outstanding
+		}
+	}
+	if rng.IntN(6) == 0 {
+		c.HandoffCap = 4 + rng.IntN(60)
+	}
+	c.CoalesceMax = []int{0, 0, 2, 64}[rng.IntN(4)]
+	if rng.IntN(5) == 0 {
+		c.IdleRetention = 1 + rng.IntN(2000)
+	}
+	c.PostCommit = rng.IntN(4) != 0
+	if !c.PostCommit {
+		c.GatePC = false
+	}
+	c.SenderFence = rng.IntN(3) == 0
+	c.Observer = rng.IntN(2) == 0
+	c.FakeClock = rng.IntN(4) == 0
 	c.PauseBefore = rng.IntN(100) < 35
 	c.AfterOps = rng.IntN(4)
 	c.LifeOps = c41GenLifeOps(rng, n)
@@ -115,6 +149,11 @@ type c41StopRec struct {
 	// PendingAtCall is the number of admitted batches whose future was not
 	// complete just before Stop was called.
 	PendingAtCall int `json:"pending_at_call"`
+	// HeldAtCall / PairsAtCall: channels with an appender call held back by the
+	// reorder mode, and those of them with a later same-channel call in flight
+	// (an out-of-order completion pair in the making), just before Stop.
+	HeldAtCall  int `json:"held_at_call"`
+	PairsAtCall int `json:"pairs_at_call"`
 }
 
 type c41Run struct {
@@ -146,6 +185,7 @@ type c41Run struct {
 	lifeCtx      context.Context // bounds the lifecycle goroutine's blocking WaitIdle calls
 	lifeCancel   context.CancelFunc
 	lifeDone     chan struct{}
+	stopFailed   atomic.Bool // the ample Stop never returned nil (decided by stopAmple)
 }
 
 func (run *c41Run) toSend(it c29Item) ca.SendBatchItem {
@@ -272,6 +312,9 @@ func (run *c41Run) stop(kind string, ctx context.Context, cancel context.CancelF
 		}
 	}
 	rec := c41StopRec{Kind: kind, Call: run.clock.Tick(), PendingAtCall: pendingAtCall}
+	rec.HeldAtCall, rec.PairsAtCall = run.model.ReorderSnapshot()
+	r.Count("stop.reorder_held_calls_outstanding_at_call", rec.HeldAtCall)
+	r.Count("stop.reorder_pairs_outstanding_at_call", rec.PairsAtCall)
 	run.stopInflight.Add(1)
 	err := run.group.Stop(ctx)
 	// --- the moment Stop returned: evaluate before anything else.
@@ -295,7 +338,7 @@ func (run *c41Run) stop(kind string, ctx context.Context, cancel context.CancelF
 		_, delivered := run.pc.Snapshot()
 		for _, log := range logs {
 			for _, rec := range log {
-				if delivered[rec.ID] == 0 {
+				if run.cfg.PostCommit && delivered[rec.ID] == 0 {
 					missingPC = append(missingPC, rec)
 				}
 			}
@@ -337,8 +380,11 @@ func (run *c41Run) stop(kind string, ctx context.Context, cancel context.CancelF
 	}
 	switch {
 	case err == nil:
-	case kind == "ample":
-		r.Violation("stop-with-ample-deadline-returned-error", map[string]any{"run": run.idx, "cfg": run.cfg, "stops": history})
+	case kind == "ample" || kind == "ample_retry":
+		r.Count("stop.patience_expired."+kind, 1) // decided by stopAmple after the second attempt
+		if ctx.Err() == nil || !errors.Is(err, ctx.Err()) {
+			r.Violation("stop-returned-error-other-than-its-context-error", map[string]any{"run": run.idx, "cfg": run.cfg, "stops": history, "ctx_err": fmt.Sprint(ctx.Err())})
+		}
 	case ctx.Err() == nil || !errors.Is(err, ctx.Err()):
 		r.Violation("stop-returned-error-other-than-its-context-error", map[string]any{"run": run.idx, "cfg": run.cfg, "stops": history, "ctx_err": fmt.Sprint(ctx.Err())})
 	}
@@ -359,19 +405,69 @@ func c41Expired() (context.Context, context.CancelFunc) {
 	return ctx, cancel
 }
 
-func (run *c41Run) ample() (context.Context, context.CancelFunc) {
-	if run.cfg.NilCtx {
-		return context.Background(), nil
+// c41StopPatience is the generous deadline of one "ample" Stop attempt.
+const c41StopPatience = 60 * time.Second
+
+func (run *c41Run) openGates() {
+	run.model.gate.Open()
+	run.pc.gate.Open()
+	run.model.SetReorder(0) // release lone held calls, hold no new ones
+}
+
+// stopAmple issues the Stop that must return nil: the harness has released (or
+// is about to release) every gate and injects nothing that blocks. It is given
+// two generous attempts. If both expire while no appender call is executing
+// and every gate is open, the drain can never finish: violation. One expiry
+// followed by success is only counted; an expiry with appender calls still
+// executing is inconclusive.
+func (run *c41Run) stopAmple() bool {
+	for attempt := 1; attempt <= 2; attempt++ {
+		kind := "ample"
+		if attempt == 2 {
+			kind = "ample_retry"
+		}
+		ctx, cancel := context.WithTimeout(context.Background(), c41StopPatience)
+		if run.stop(kind, ctx, cancel) {
+			if attempt == 2 {
+				run.r.Count("stop.ample_succeeded_on_second_attempt", 1)
+			}
+			return true
+		}
+		run.openGates()
 	}
-	return context.WithTimeout(context.Background(), 10*time.Minute)
+	run.stopFailed.Store(true)
+	inflight := run.model.InflightCalls()
+	run.mu.Lock()
+	snapshot := append([]*c29Batch(nil), run.batches...)
+	run.mu.Unlock()
+	pending := 0
+	var first *c29Batch
+	for _, b := range snapshot {
+		if b.fut != nil {
+			if _, done := c29FutureDone(b.fut); !done {
+				pending++
+				if first == nil {
+					first = b
+				}
+			}
+		}
+	}
+	if inflight == 0 {
+		w := map[string]any{"run": run.idx, "cfg": run.cfg, "stops": run.stopHistory(), "lifecycle": run.lifeHistory(), "patience_s": c41StopPatience.Seconds(), "attempts": 2,
+			"appender_calls_executing": inflight, "non_terminal_batches": pending}
+		if first != nil {
+			w["first_non_terminal"] = map[string]any{"producer": first.Prod, "batch": first.N, "submit_call": first.Call, "submit_ret": first.Ret, "items": first.Items}
+		}
+		run.r.Violation("stop-never-completes-after-gates-released", w)
+	} else {
+		run.r.Inconclusive(fmt.Sprintf("case %d: Stop did not return nil within 2 x %v but %d appender calls were still executing", run.idx, c41StopPatience, inflight))
+	}
+	return false
 }
 
 func (run *c41Run) controller() {
 	cfg := run.cfg
-	openGates := func() {
-		run.model.gate.Open()
-		run.pc.gate.Open()
-	}
+	openGates := run.openGates
 	if cfg.GateAt >= 0 {
 		run.waitProgress(int64(cfg.GateAt))
 		run.model.gate.Close()
@@ -387,10 +483,7 @@ func (run *c41Run) controller() {
 	switch cfg.Scenario {
 	case 0:
 		done := make(chan bool, 1)
-		go func() {
-			ctx, cancel := run.ample()
-			done <- run.stop("ample", ctx, cancel)
-		}()
+		go func() { done <- run.stopAmple() }()
 		hold()
 		openGates()
 		<-done
@@ -411,17 +504,22 @@ func (run *c41Run) controller() {
 			hold()
 		}
 		openGates()
-		ctx, cancel := run.ample()
-		run.stop("ample", ctx, cancel)
+		run.stopAmple()
 	case 2:
 		ctx, cancel := context.WithTimeout(context.Background(), time.Duration(200+cfg.Hold*50)*time.Microsecond)
 		run.stop("short_deadline", ctx, cancel)
 		hold()
 		openGates()
-		ctx, cancel = run.ample()
-		run.stop("ample", ctx, cancel)
+		run.stopAmple()
 	}
 	openGates()
+	if run.stopFailed.Load() {
+		// The drain is stuck; nothing below can be judged. End the case.
+		run.lifeCancel()
+		<-run.lifeDone
+		run.endCancel()
+		return
+	}
 	// Stop on a stopped group returns nil whatever the context.
 	ctx, cancel := c41Expired()
 	if !run.stop("after_stopped_expired", ctx, cancel) {
@@ -444,7 +542,7 @@ func (run *c41Run) controller() {
 func TestVerifC41(t *testing.T) {
 	r := verifkit.Start(t, "C41", "append")
 	defer r.Finish()
-	r.SetRule("One case = one fresh channelappend.Group over a sequential-log store model with gated appends and a gated PersistAfter sink; config (2-12 producers, 1-5 channels, shards, pools, limits, pipeline depth, fail-before-apply rate, gate instant, Stop instant, scenario: ample / expired+ample / short deadline+ample / expired+cancelled+ample, hold length; plus a PRNG plan of Start / PauseForRestore / ResumeAfterRestore / WaitIdle / ResetAfterRestore / ApplySubscriberMutation calls issued by an independent goroutine at PRNG instants and by the controller right after every Stop return, optionally a PauseForRestore right before the Stop scenario) and the producers' plans are PRNG functions of (seed, case). Non-trivial = at least one Stop call returned while admitted sends were still unfinished or gated (so the drain had real work), at least one submission was admitted before and one rejected after the fence. Distinct = (scenario, producers, channels, gate mode, log2 buckets of admitted-before / rejected-after / in-flight-at-stop).")
+	r.SetRule("One case = one fresh channelappend.Group over a sequential-log store model with gated appends and a gated PersistAfter sink; config (2-12 producers, 1-5 channels, shards, advance/effect pools, admission / backlog / handoff limits, AppendInflightBatchesPerChannel in {default,2,3,8} with an appender that on purpose lets a later same-channel batch return before an earlier held one, inbox coalescing, writer idle retention, PersistAfter on/off, sender fence, observers, clock, pipeline depth, fail-before-apply rate, gate instant, Stop instant, scenario: ample / expired+ample / short deadline+ample / expired+cancelled+ample, hold length; plus a PRNG plan of Start / PauseForRestore / ResumeAfterRestore / WaitIdle / ResetAfterRestore / ApplySubscriberMutation calls issued by an independent goroutine at PRNG instants and by the controller right after every Stop return, optionally a PauseForRestore right before the Stop scenario) and the producers' plans are PRNG functions of (seed, case). Non-trivial = at least one Stop call returned while admitted sends were still unfinished or gated (so the drain had real work), at least one submission was admitted before and one rejected after the fence. Distinct = (scenario, producers, channels, gate mode, log2 buckets of admitted-before / rejected-after / in-flight-at-stop).")
 	r.Assume("The fake appender honours its context like the real one (a cancelled append context fails the batch); item contexts are never cancelled by the harness, and the appender only injects failures before applying, so 'record stored <=> success' is exact.")
 
 	nRuns := r.N(600, 8000)
@@ -458,9 +556,9 @@ func TestVerifC41(t *testing.T) {
 		run := &c41Run{r: r, idx: i, cfg: cfg, clock: &verifkit.Clock{}, lrng: r.Rand(41, uint64(i), 7), lifeDone: make(chan struct{})}
 		run.endCtx, run.endCancel = context.WithCancel(context.Background())
 		run.lifeCtx, run.lifeCancel = context.WithCancel(run.endCtx)
-		ok := verifkit.Watchdog(240*time.Second, func() { run.execute(rng) })
+		ok := verifkit.Watchdog(300*time.Second, func() { run.execute(rng) })
 		if !ok {
-			r.Inconclusive(fmt.Sprintf("case %d: watchdog (240s) expired (a Stop or an admitted future never finished); cfg=%+v", i, cfg))
+			r.Inconclusive(fmt.Sprintf("case %d: watchdog (300s) expired (a Stop or an admitted future never finished); cfg=%+v", i, cfg))
 			r.Count("runs.watchdog", 1)
 			run.model.gate.Open()
 			run.pc.gate.Open()
@@ -481,15 +579,36 @@ func (run *c41Run) execute(rng *rand.Rand) {
 	}
 	ids := &c29IDs{}
 	ids.n.Store(uint64(5000 + rng.IntN(1_000_000)))
-	opts := ca.Options{LocalNodeID: 1, Appender: run.model, Idempotency: run.model, MessageID: ids, PersistAfterEnqueuer: run.pc,
+	opts := ca.Options{LocalNodeID: 1, Appender: run.model, Idempotency: run.model, MessageID: ids,
 		AuthorityShardCount: cfg.Shards, AdvancePoolSize: cfg.Advance, EffectPoolSize: cfg.Effect,
-		AdmissionCapacityPerShard: cfg.AdmitCap, ChannelBacklogHighWatermark: cfg.Backlog}
+		AdmissionCapacityPerShard: cfg.AdmitCap, ChannelBacklogHighWatermark: cfg.Backlog,
+		AppendInflightBatchesPerChannel: cfg.Inflight, PostCommitHandoffCapacity: cfg.HandoffCap, InboxCoalesceMaxItems: cfg.CoalesceMax,
+		WriterIdleRetention: time.Duration(cfg.IdleRetention) * time.Microsecond}
+	if cfg.PostCommit {
+		opts.PersistAfterEnqueuer = run.pc
+	}
+	if cfg.SenderFence {
+		opts.SenderFence = c41Fence{}
+	}
+	if cfg.Observer {
+		opts.Observer = &c41Observer{}
+	}
+	if cfg.FakeClock {
+		opts.Clock = c41Clock{}
+	}
+	run.model.SetReorder(cfg.Reorder)
+	r.Count(fmt.Sprintf("cases.inflight_%d", cfg.Inflight), 1)
+	if cfg.Reorder > 0 {
+		r.Count("cases.reorder_mode", 1)
+	}
 	switch cfg.Coalesce {
 	case -1:
 		opts.InboxCoalesceWindow = -1
 	case 1:
 		opts.InboxCoalesceWindow = time.Millisecond
-		opts.InboxCoalesceMaxItems = 64
+		if opts.InboxCoalesceMaxItems == 0 {
+			opts.InboxCoalesceMaxItems = 64
+		}
 	}
 	run.group = ca.New(opts)
 	if err := run.group.Start(context.Background()); err != nil {
@@ -637,6 +756,8 @@ func (run *c41Run) judge() {
 		// is still incomplete then will never be completed by anybody.
 		if len(stops) > 0 && stops[len(stops)-1].IsNil {
 			r.Violation("admitted-send-never-terminal-after-final-stop", map[string]any{"run": run.idx, "cfg": cfg, "stops": stops, "lifecycle": run.lifeHistory(), "non_terminal_batches": hung})
+		} else if run.stopFailed.Load() {
+			r.Count("admitted.non_terminal_batches_after_stuck_stop", hung) // verdict given by stopAmple
 		} else {
 			r.Inconclusive(fmt.Sprintf("case %d: %d admitted batches without result and the final Stop did not return nil", run.idx, hung))
 		}
@@ -678,4 +799,33 @@ func (run *c41Run) judge() {
 	if r.WantSample() {
 		r.Sample(map[string]any{"run": run.idx, "cfg": cfg, "stops": stops, "batches": len(batches), "admitted_before_stop": admittedBefore, "in_flight_at_stop": inflightAtStop, "rejected_after_fence": rejectedAfter})
 	}
+}
+
+// ---------------------------------------------------------------------------
+// Optional ports.
+
+type c41Fence struct{}
+
+func (c41Fence) ValidateSender(context.Context, ca.SendCommand) error { return nil }
+
+type c41Clock struct{}
+
+func (c41Clock) Now() time.Time { return time.Unix(1_700_000_000, 0) }
+
+// c41Observer implements AppendObserver and the optional pressure / effect /
+// pool / admission observer interfaces (this enables the group's pressure
+// publisher goroutine, which Stop has to shut down as well).
+type c41Observer struct{ n atomic.Int64 }
+
+func (o *c41Observer) AppendFinished(string, error, time.Duration)                       { o.n.Add(1) }
+func (o *c41Observer) SetChannelAppendWriterPressure(ca.WriterPressureObservation)       { o.n.Add(1) }
+func (o *c41Observer) ObserveChannelAppendEffect(ca.EffectObservation)                   { o.n.Add(1) }
+func (o *c41Observer) ObserveChannelAppendEffectPool(ca.EffectPoolObservation)           { o.n.Add(1) }
+func (o *c41Observer) ObserveChannelAppendAntsPool(ca.AntsPoolObservation)               { o.n.Add(1) }
+func (o *c41Observer) ObserveChannelAppendLocalAdmission(ca.LocalAdmissionObservation)   { o.n.Add(1) }
+func (o *c41Observer) ObserveChannelAppendPostCommitFailure(ca.PostCommitFailureObservation) {
+	o.n.Add(1)
+}
+func (o *c41Observer) ObserveChannelAppendIdempotencyRecovery(ca.IdempotencyRecoveryObservation) {
+	o.n.Add(1)
 }
